@@ -18,9 +18,9 @@ from harness import common as C
 
 RULE = ('histories over the alphabet {read_x, read_y, read_r, read_t, crop, pad1, pad21, mask, mask_r, fill, spike_clip, '
         'remove_piston, remove_tiptilt, remove_power, recenter, latcal2, latcal037, strip_latcal, filter}: exhaustive up to '
-        'length 3 on 6 configurations and 2 on the other 26 (quick) / 4 on 4 and 3 on the other 28, 5 over the coordinate-relevant sub-alphabet on 2 (thorough) by prefix-shared DFS on configurations '
+        'length 3 on 6 configurations and 2 on the other 26 (quick) / 4 on 4 and 3 on the other 28, 5 over the coordinate-relevant sub-alphabet on 1 (thorough) by prefix-shared DFS on configurations '
         '(shape in 8x8, 9x7, 12x9, 7x10; NaN pattern none / circular / ragged edge / interior dropouts; dx in 1, 0.37), plus '
-        'seeded random histories up to length 40; every step of every history is one case; a case is non-trivial unless '
+        'seeded random histories up to length 40; crop additionally on every shape of a list (wide, tall, square, odd/even, 1-wide) x all 16 combinations of touching-the-edge / all-invalid margin on the four sides x two margin-width assignments x caches empty/populated; every step of every history is one case; a case is non-trivial unless '
         'the operation is a bare read on an object whose caches are already populated; distinct = distinct '
         '(configuration, operation prefix)')
 ASSUMPTIONS = [
@@ -503,6 +503,86 @@ def all_configs():
     return out
 
 
+# ------------------------------------------------------------------------------------------------
+# systematic bounding boxes for crop
+# ------------------------------------------------------------------------------------------------
+CROP_SHAPES_QUICK = [(5, 8), (8, 5), (6, 6), (7, 7), (6, 9), (9, 6), (4, 10), (10, 4), (3, 3), (2, 7), (7, 2)]
+CROP_SHAPES_THOROUGH = CROP_SHAPES_QUICK + [(5, 5), (8, 8), (5, 12), (12, 5), (7, 11), (11, 7), (8, 13), (13, 8), (1, 6), (6, 1)]
+
+
+def crop_cases(shapes):
+    """for every shape: all 16 combinations of (touches the edge | has an all-invalid margin) for the four sides
+    (source naming: left/right = leading/trailing ROWS, top/bottom = leading/trailing COLUMNS), margins of different widths
+    on the different sides (two width assignments), caches empty or populated before the crop"""
+    out = []
+    for (m, n) in shapes:
+        for combo in itertools.product((0, 1), repeat=4):
+            for wsel, widths in enumerate(((1, 2, 3, 1), (2, 1, 1, 3))):
+                marg = [c * w for c, w in zip(combo, widths)]
+                # shrink margins until a valid region is left on each axis
+                while marg[0] + marg[1] >= m:
+                    k = 0 if marg[0] >= marg[1] else 1
+                    marg[k] -= 1
+                while marg[2] + marg[3] >= n:
+                    k = 2 if marg[2] >= marg[3] else 3
+                    marg[k] -= 1
+                out.append({'shape': [m, n], 'margins': marg, 'seed': 17 * m + n + wsel, 'read': bool((sum(combo) + wsel) % 2)})
+    uniq, seen = [], set()
+    for c in out:
+        key = (tuple(c['shape']), tuple(c['margins']), c['read'])
+        if key not in seen:
+            seen.add(key)
+            uniq.append(c)
+    return uniq
+
+
+def crop_data(cfg):
+    m, n = cfg['shape']
+    l, r, t, b = cfg['margins']
+    rng = np.random.Generator(np.random.PCG64(cfg['seed']))
+    z = np.full((m, n), np.nan)
+    box = rng.normal(size=(m - l - r, n - t - b)) + 2.0
+    if box.shape[0] > 2 and box.shape[1] > 2:          # interior dropouts, ragged border lines (corners stay valid)
+        drop = rng.random(box.shape) < 0.25
+        drop[0, 0] = drop[-1, -1] = drop[0, -1] = drop[-1, 0] = False
+        box[drop] = np.nan
+    z[l:m - r, t:n - b] = box
+    return z
+
+
+def crop_failures(cfg, verbose=False):
+    """property predicates of `crop` on the real code for one bounding-box case; returns (failures, real window)"""
+    ig = _impl()
+    z = crop_data(cfg)
+    m, n = cfg['shape']
+    l, r, t, b = cfg['margins']
+    i = ig.Interferogram(z.copy(), dx=0.5)
+    if cfg.get('read'):
+        i.r, i.t      # noqa: populate all four caches first
+    exp = z[l:m - r, t:n - b]
+    out = []
+    try:
+        with warnings.catch_warnings():
+            warnings.simplefilter('ignore')
+            i.crop()
+            d1 = i.data
+            if verbose:
+                print(f'  data {z.shape} with all-invalid margins rows {l}/{r}, columns {t}/{b}: crop -> {d1.shape}, expected {exp.shape}')
+            if not np.array_equal(np.sort(_valid(z)), np.sort(_valid(d1))):
+                out.append(f'crop lost valid samples: {np.isfinite(z).sum()} before, {np.isfinite(d1).sum()} after')
+            if d1.shape != exp.shape or not np.array_equal(d1, exp, equal_nan=True):
+                out.append(f'crop kept a window of shape {d1.shape}; the bounding box of the valid samples is rows [{l},{m - r}) columns [{t},{n - b})')
+            j = copy.deepcopy(i)
+            j.crop()
+            if j.data.shape != d1.shape or not np.array_equal(j.data, d1, equal_nan=True):
+                out.append(f'crop is not idempotent: {d1.shape} -> {j.data.shape}')
+            out += coord_failures(i)
+    except Exception as ex:
+        out.append(f'crop raised {type(ex).__name__}: {ex}')
+        d1 = None
+    return out, (None if d1 is None else d1.shape)
+
+
 HAND_METHODS = ['read_x', 'read_y', 'read_r', 'read_t', 'crop', 'pad', 'mask', 'fill', 'spike_clip', 'remove_piston',
                 'remove_tiptilt', 'remove_power', 'recenter', 'latcal', 'strip_latcal', 'filter']
 
@@ -545,6 +625,23 @@ def correspondence(ctx):
     cfgs = all_configs()
     order = list(ctx.rng.permutation(len(cfgs)))
     widen = 1 if ctx.widen else 0
+    # systematic bounding boxes for crop: predicates on the real code + the model's crop window
+    ccases = crop_cases(CROP_SHAPES_THOROUGH if (ctx.thorough or ctx.widen) else CROP_SHAPES_QUICK)
+    clines = []
+    for c in ccases:
+        m, n = c['shape']
+        l, r, t, b = c['margins']
+        ctx.case('crop_box', c, nontrivial=any(c['margins']), tag='wide' if m < n else ('tall' if m > n else 'square'))
+        fails, shp = crop_failures(c)
+        for f in fails:
+            ctx.pred_fail('crop_box', c, f)
+        clines.append(f'crop {m} {n} ' + _floats(crop_data(c)))
+    for c, line in zip(ccases, C.lean_driver('C12', clines)):
+        m, n = c['shape']
+        l, r, t, b = c['margins']
+        want = 'none' if not any(c['margins']) else f'{l} {m - r} {t} {n - b}'
+        if line != want:
+            ctx.disagree('crop_box', c, want, line, note='model crop window vs bounding box of the generated valid region')
     # exhaustive, prefix-shared
     ndeep = ctx.scale(6 + 2 * widen, 4)
     deep = [cfgs[k] for k in order[:ndeep]]
@@ -558,11 +655,11 @@ def correspondence(ctx):
         _dfs(run, cfg, make_obj(cfg), [], [], ALPHABET, ctx.scale(2, 3))
     run.flush()
     if ctx.thorough:
-        for cfg in mid[:2]:
+        for cfg in mid[:1]:
             _dfs(run, cfg, make_obj(cfg), [], [], COORD_ALPHABET, 5)
             run.flush()
     # random long histories with value-level comparison at every step
-    nrand = ctx.scale(120, 1000)
+    nrand = ctx.scale(120, 800)
     for _ in range(nrand):
         cfg = dict(cfgs[int(ctx.rng.integers(len(cfgs)))], data_seed=int(ctx.rng.integers(1, 10 ** 6)))
         L = int(ctx.rng.integers(4, 41))
@@ -615,6 +712,10 @@ def run_history(cfg, ops, verbose=False):
 def search(ctx, hints):
     """property predicates on the real code: first the histories on which model and implementation disagreed
     (and their one-step extensions), then breadth-first over operation sequences, shortest failing history first"""
+    for c in sorted(crop_cases(CROP_SHAPES_THOROUGH), key=lambda c: (c['shape'][0] * c['shape'][1], sum(c['margins']))):
+        f, _ = crop_failures(c)
+        if f:
+            return {'item': 'crop_box', 'input': c, 'detail': f[0]}
     cfgs = all_configs()
     seen = set()
     cands = []
@@ -652,6 +753,12 @@ def search(ctx, hints):
 
 def replay(inp):
     c = inp['input'] if 'input' in inp else inp
+    if inp.get('item') == 'crop_box' or 'margins' in c:
+        print('replaying crop on', c)
+        f, _ = crop_failures(c, verbose=True)
+        for x in f:
+            print('  VIOLATED:', x)
+        return bool(f)
     cfg = {k: c[k] for k in ('shape', 'pattern', 'dx', 'data_seed')}
     print('replaying history', c['ops'], 'on', cfg)
     f = run_history(cfg, c['ops'], verbose=True)
@@ -676,7 +783,9 @@ MANIFEST_ENTRY = {
              'meanSq = var + mean^2, Sa^2 <= var <= PV^2, and over R rms^2 = std^2 + mean^2, Sa <= std <= PV; piston removal '
              'gives exactly zero mean; the 2-column normal-equation fit is the least-squares solution and tilt removal (both '
              'columns) / power removal (first column only) are idempotent when the columns are independent; the bounding-box '
-             'crop keeps every valid sample and a second crop returns early. The real object is compared with the state machine '
+             'crop keeps every valid sample and a second crop returns early; `crop_slices_are_box`: the slice arithmetic of every branch of '
+             'crop in the current source (translated, NumPy bound normalisation included) keeps exactly rows [left, rows-right) x columns '
+             '[top, cols-bottom) for every shape. The real object is compared with the state machine '
              'and the value model after every step of exhaustive short and random long histories, and the property predicates '
              'are evaluated on the real arrays themselves.'),
     'note': ('partial: the effect lists abstract array contents to affine grids (shape, origin, spacing) — that the NumPy '
